@@ -11,7 +11,9 @@ from vf.zoo import unit, vec
 
 ID = "C10"
 LEVEL = "exploration"
-BUDGET = {"quick": 28800, "thorough": 288000}
+BUDGET = {"quick": 48000, "thorough": 480000}
+# coverage-guided phase (atheris drives the same strategy through fuzz_one_input; thorough tier only)
+FUZZ = {"quick": 0, "thorough": 320000, "include": ['mici.matrices']}
 RULE = (
     "Hypothesis draws expression trees (depth <=3 quick / <=4 thorough, size 1-6) over all concrete matrix "
     "classes and constructor options (signs, lower/upper, make_triangular, supplied factor / LU / "
